@@ -19,6 +19,8 @@ type oidWorld struct {
 	p        *Program
 	advances []*ssa.Store
 	advFns   map[*ssa.Function]bool // calling one of these advances the counter
+	ctrOwner string                 // the struct type that holds the counter, and the counter's field
+	ctrField string
 }
 
 func (p *Program) oid() *oidWorld {
@@ -26,6 +28,57 @@ func (p *Program) oid() *oidWorld {
 		return p.oidw
 	}
 	w := &oidWorld{p: p, advFns: map[*ssa.Function]bool{}}
+	// the counter: packetManager.packetCount — or, when that name is gone, the one uint32 field of the packet manager
+	// (or of a struct the packet manager holds by value) that some function increments by one
+	w.ctrOwner, w.ctrField = "packetManager", "packetCount"
+	if pm := p.NamedType(p.Sftp, "packetManager"); pm != nil {
+		has := false
+		owners := map[string]bool{"packetManager": true}
+		if st, ok := pm.Underlying().(*types.Struct); ok {
+			for i := 0; i < st.NumFields(); i++ {
+				if st.Field(i).Name() == "packetCount" {
+					has = true
+				}
+				if _, isStruct := st.Field(i).Type().Underlying().(*types.Struct); isStruct {
+					owners[typeName(st.Field(i).Type())] = true
+				}
+			}
+		}
+		if !has {
+			type cand struct{ owner, field string }
+			found := map[cand]bool{}
+			for _, fn := range p.LibFuncs() {
+				if outermost(fn).Package() != p.Sftp {
+					continue
+				}
+				eachInstr(fn, func(in ssa.Instruction) {
+					st, ok := in.(*ssa.Store)
+					if !ok {
+						return
+					}
+					t, name, _, ok := fieldOf(st.Addr)
+					if !ok || !owners[typeName(t)] || !isBasicKind(types.Uint32)(st.Val.Type()) {
+						return
+					}
+					// value = load of the same field + 1
+					if bo, ok := st.Val.(*ssa.BinOp); ok && bo.Op == token.ADD {
+						if k, ok := constInt(bo.Y); ok && k == 1 {
+							if ld, ok := bo.X.(*ssa.UnOp); ok && ld.Op == token.MUL {
+								if t2, n2, _, ok := fieldOf(ld.X); ok && n2 == name && typeName(t2) == typeName(t) {
+									found[cand{typeName(t), name}] = true
+								}
+							}
+						}
+					}
+				})
+			}
+			if len(found) == 1 {
+				for c := range found {
+					w.ctrOwner, w.ctrField = c.owner, c.field
+				}
+			}
+		}
+	}
 	for _, fn := range p.LibFuncs() {
 		if outermost(fn).Package() != p.Sftp {
 			continue
@@ -35,7 +88,7 @@ func (p *Program) oid() *oidWorld {
 			if !ok {
 				return
 			}
-			if t, name, _, ok := fieldOf(st.Addr); ok && name == "packetCount" && typeName(t) == "packetManager" {
+			if t, name, _, ok := fieldOf(st.Addr); ok && name == w.ctrField && typeName(t) == w.ctrOwner {
 				w.advances = append(w.advances, st)
 				w.advFns[fn] = true
 			}
@@ -92,7 +145,7 @@ func (w *oidWorld) issuedValue(v ssa.Value, depth int) bool {
 	for _, l := range leaves {
 		switch l.Kind {
 		case leafFieldLoad:
-			if l.Field != "packetCount" {
+			if l.Field != w.ctrField {
 				return false
 			}
 			li, ok := l.V.(ssa.Instruction)
